@@ -267,3 +267,42 @@ Proof. intros s1 s2 H1 H2 E [n Hn]. exists n. rewrite <- (proj2 (same_key_value 
 
 Theorem same_key_lost : forall s1 s2, LegalPos s1 -> LegalPos s2 -> rulekey s1 = rulekey s2 -> Lost s1 -> Lost s2.
 Proof. intros s1 s2 H1 H2 E [n Hn]. exists n. rewrite <- (proj1 (same_key_value s1 s2 H1 H2 E n)). exact Hn. Qed.
+
+(* ------------------------------------------------------------------ *)
+(* 4. refuting Won / Lost (used for the counterexample of C06)          *)
+(* ------------------------------------------------------------------ *)
+
+(* a move after which the opponent has no legal move at all (mate or stalemate) means: not lost *)
+Theorem not_lost_of_dead_end : forall s m ns, LegalPos s -> In (m, ns) (gen_legal s) -> gen_legal ns = [] -> ~ Lost s.
+Proof.
+  intros s m ns HL Hin Hnil [n Hn]. destruct (succ_abs s m ns HL Hin) as (HLn & Hm & Hnc).
+  rewrite loss_unfold in Hn. destruct (Rules.legal_moves (abs s)) as [|m0 ms0] eqn:El; [destruct Hm|].
+  destruct n as [|[|k]]; [discriminate Hn|discriminate Hn|].
+  rewrite forallb_forall in Hn. specialize (Hn (absm m) Hm).
+  rewrite <- (win_ext_nc (S k) _ _ Hnc), win_S in Hn.
+  rewrite (proj1 (gen_legal_nil_iff ns HLn) Hnil) in Hn. discriminate Hn.
+Qed.
+
+Theorem not_won_of_children : forall s, LegalPos s -> (forall m ns, In (m, ns) (gen_legal s) -> ~ Lost ns) -> ~ Won s.
+Proof.
+  intros s HL Hall [n Hn]. destruct n as [|k]; [discriminate Hn|]. rewrite win_S in Hn.
+  apply existsb_exists in Hn. destruct Hn as [mv [Hmv Hl]].
+  destruct (rules_move_succ s mv HL Hmv) as (m & ns & Hin & <-).
+  destruct (succ_abs s m ns HL Hin) as (_ & _ & Hnc).
+  apply (Hall m ns Hin). exists k. rewrite (loss_ext_nc k _ _ Hnc). exact Hl.
+Qed.
+
+Definition dead_end_reply (c : state) : bool :=
+  existsb (fun mc => match gen_legal (snd mc) with [] => true | _ => false end) (gen_legal c).
+Definition all_children_escape (s : state) : bool :=
+  forallb (fun mc => legal_posb (snd mc) && dead_end_reply (snd mc)) (gen_legal s).
+
+Theorem all_children_escape_sound : forall s, LegalPos s -> all_children_escape s = true -> ~ Won s.
+Proof.
+  intros s HL H. apply (not_won_of_children s HL). intros m ns Hin.
+  unfold all_children_escape in H. rewrite forallb_forall in H. specialize (H (m, ns) Hin). cbn [snd] in H.
+  apply andb_true_iff in H. destruct H as [HLn H]. unfold dead_end_reply in H.
+  apply existsb_exists in H. destruct H as [[m2 c2] [Hin2 Hd]]. cbn [snd] in Hd.
+  destruct (gen_legal c2) eqn:E; [|discriminate Hd].
+  exact (not_lost_of_dead_end ns m2 c2 HLn Hin2 E).
+Qed.
